@@ -71,6 +71,29 @@ func factsC05() {
 		}
 	}
 	addStrList("c05UpdateCalls", upd, "instance.HAProxyUpdate: config/writer calls in source order (Commit is deferred)")
+	// the gate in front of writeConfig
+	var gate []string
+	ast.Inspect(methodDecl("pkg/haproxy/instance.go", "instance", "HAProxyUpdate").Body, func(n ast.Node) bool {
+		if v, ok := n.(*ast.IfStmt); ok {
+			direct := false
+			for _, st := range v.Body.List {
+				ast.Inspect(st, func(m ast.Node) bool {
+					if _, ok := m.(*ast.IfStmt); ok {
+						return false
+					}
+					if c, ok := m.(*ast.CallExpr); ok && calleeName(c.Fun) == "i.writeConfig" {
+						direct = true
+					}
+					return true
+				})
+			}
+			if direct {
+				gate = append(gate, c05Expr(v.Cond))
+			}
+		}
+		return true
+	})
+	addStrList("c05WriteConfigGate", gate, "instance.HAProxyUpdate: condition under which writeConfig is called")
 	var wr []string
 	for _, c := range methodCalls("pkg/haproxy/instance.go", "instance", "writeConfig") {
 		switch c {
